@@ -260,6 +260,15 @@ def run(ctx):
     for i in range(600 if quick else 20000):
         ty = rng.choice(["int", "float", "bool", "str", "list"])
         exprs.append(exprgen.gen(rng, ty, rng.choice([1, 2, 2, 3]), 0.35))
+    # the integer corner table, exhaustively: every arithmetic operator over the extreme operands
+    corners = [["i", 0], ["i", 1], ["i", -1], ["i", 3], ["i", 2147483647], exprgen.I32_MIN, ["var", "vbig"], ["var", "vz"]]
+    for op in ("+", "-", "*", "/", "%", "MIN", "MAX", "POW", "==", "<"):
+        for x in corners:
+            for y in corners:
+                exprs.append(["bin", op, x, y])
+    for op in ("_", "!", "INT", "FLOAT", "FLOOR", "CEILING"):
+        for x in corners:
+            exprs.append(["un", op, x])
     seen = set()
     uniq = []
     for e in exprs:
